@@ -55,6 +55,9 @@ T = {
  "C15": ("query-history checker against a pure-function sequential specification + element-consistency monitors",
          "Runtime monitoring: random sequences of 3-12 queries on one WMM object (constructor, explicit dates on and off the 0.1-year grid in all three epochs, date=None, both frames, special places) are compared answer by answer with the pure function f(date, place, frame) computed by the independent synthesis; constructor vs method for the same float / datetime.date; H, F, I, D, GV recomputed from the reported X, Y, Z; +180 vs -180; poles; equator and prime meridian through both entry points.",
          "NumPy; vt/ref/wmm.py; date=None means the date the object already holds", "5/C15"),
+ "C16": ("closed-form identity monitor (defining identities, Pizzetti, Somigliana end values, symmetry, monotone in height, rotating-sphere limit)",
+         "Runtime monitoring: reference ellipsoids drawn over a in 1e5..1e8 m, f in {0, 1e-6..0.2}, GM over 10 decades, m up to 0.05 (both rotation senses), the nine bodies of the constants table and the WGS class are constructed with the real classes; derived constants, Pizzetti's theorem, gamma(0)=ge, gamma(+-90)=gp, positivity, latitude symmetry, strict decrease in height up to 0.5 % of a and closeness to the rotating-sphere values for f <= 1e-3 (incl. f = 0) are checked at fixed and random latitudes.",
+         "NumPy; closed forms evaluated by the harness; 0 < f < 1e-6 is outside the property's domain (q0 cancellation), not generated", "5/C16"),
 }
 
 def main():
